@@ -83,11 +83,15 @@ def is_priv_store(f, lhs, privs):
     return r[0] == "var" and r[2] in privs and len(p) > 1
 
 
-def mentions_field(f, nid, field):
+def mentions_field(f, nid, field, _depth=0):
     for x in f.walk(nid):
         n = f.nodes[x]
         if n["k"] == "member" and n["field"] == field:
             return True
+        if n["k"] == "ref" and n.get("dk") == "local" and _depth < 4:
+            src = f.copy_src(x)          # a named temporary is read through (model.Function.copy_src)
+            if src is not None and mentions_field(f, src, field, _depth + 1):
+                return True
     return False
 
 
